@@ -333,6 +333,10 @@ class QueryPlanner:
         find_selects = self.get_nested_selects_plan_fnc(main_integration, force=is_api_db)
         query.targets = query_traversal(query.targets, find_selects)
         query_traversal(query.where, find_selects)
+        if query.group_by is not None:
+            query.group_by = query_traversal(query.group_by, find_selects)
+        query_traversal(query.having, find_selects)
+        query_traversal(query.order_by, find_selects)
 
         # get info of updated query
         query_info = self.get_query_info(query)
